@@ -42,6 +42,9 @@ func (c18) Cases(tier string, seed uint64) []core.Case {
 	for i := 0; i < n; i++ {
 		cfg := core.Config{IndexType: core.IndexTypes[i%3], ShardNum: core.ShardNums[r.Intn(6)], FileIO: byte((i / 3) % 2),
 			DataFileSize: []int64{4 << 10, 8 << 10, 40 << 10, 1 << 20}[r.Intn(4)]}
+		if i%5 == 4 && cfg.DataFileSize > 40<<10 {
+			cfg.DataFileSize = 40 << 10
+		}
 		out = append(out, core.Case{Index: i, ID: fmt.Sprintf("c18-%05d", i), Seed: r.U64(), Data: seqCase{Cfg: cfg, NOps: r.Range(20, 120), NKeys: r.Range(3, 14)}})
 	}
 	return out
@@ -108,6 +111,18 @@ func (c18) Run(c core.Case, w *core.Worker) core.Result {
 	}
 	if !s.Open() {
 		return res
+	}
+	if c.Index%5 == 4 {
+		// (almost) only live data over several files, then a slightly smaller limit: the
+		// rewritten set needs about one file more than were merged, Merge must abandon
+		for i := 0; i < r.Range(12, 36) && !s.Dead; i++ {
+			s.Exec(core.Op{Kind: "put", Key: []byte(fmt.Sprintf("u%03d", i)), VLen: r.Range(int(sc.Cfg.DataFileSize)/8, int(sc.Cfg.DataFileSize)/3), VSeed: r.U64() | 1})
+		}
+		small := s.Cfg
+		small.DataFileSize = s.Cfg.DataFileSize * int64(r.Range(70, 99)) / 100
+		s.Exec(core.Op{Kind: "restart", Cfg: &small})
+		sc.NOps = 0
+		res.Add("cases_near_output_overflow", 1)
 	}
 	for round := 0; round < 2 && !s.Dead; round++ {
 		n := sc.NOps
